@@ -418,6 +418,8 @@ def C_unchanged_pairs(repo, clause):
         return False
     def _positive_parts(t, pol):
         """the comparisons that HOLD when guard t is taken with polarity pol (conjunctions split; a negated comparison / disjunction turned around)"""
+        if isinstance(t, ast.UnaryOp) and isinstance(t.op, ast.Not):
+            return _positive_parts(t.operand, not pol)
         if pol:
             if isinstance(t, ast.BoolOp) and isinstance(t.op, ast.And):
                 return [q for v in t.values for q in _positive_parts(v, True)]
@@ -1464,6 +1466,7 @@ def _roll_sign(repo, clause):
         flip_node = f_
         s_b = (1 if const_value(f_.value) > 0 else -1) if isinstance(f_, ast.AugAssign) else sign_of(f_.value, ang)
         for t, pol, k in norm_guards(fn, f_):
+            t = _inline_cross_temps(fn, t)       # the normal may sit in a temporary
             if pol and any(isinstance(x, ast.Call) and call_name(x) == "cross" for x in ast.walk(t)) and any(isinstance(x, ast.Call) and call_name(x) in ("isclose", "allclose") for x in ast.walk(t)):
                 par_guard = True
     if s_q is None:
@@ -1507,6 +1510,7 @@ def _roll_sign(repo, clause):
                                 hit.add(y.id)
             return hit
         for t, pol, k in norm_guards(fn, flip_node):
+            t = _inline_cross_temps(fn, t)
             # the other conjunct may only exclude the two angles at which the sense is undefined (exactly 0 and exactly pi)
             conj_ = t.values if isinstance(t, ast.BoolOp) and isinstance(t.op, ast.And) else [t]
             for cj in conj_:
@@ -1520,7 +1524,7 @@ def _roll_sign(repo, clause):
                               "the sense test is skipped only for %s" % ("angles exactly 0 or pi (`%s`)" % ast.unparse(cj) if exact and not tol_ else (
                                   "angles WITHIN A TOLERANCE of 0 or pi (`%s`): a small twist of that size is rolled the wrong way in one of its two senses, so exact copies are missed at tight atol" % ast.unparse(cj)[:70]
                                   if tol_ else "`%s` (not recognised)" % ast.unparse(cj)[:60])),
-                              slot="roll-sense-exclusion", positive=bool(tol_), undecided=not tol_ and not exact))
+                              slot="roll-sense-exclusion", positive="robust" if tol_ else False, undecided=not tol_ and not exact))
             for c in [x for x in ast.walk(t) if isinstance(x, ast.Call) and call_name(x) in ("isclose", "allclose") and len(x.args) >= 2]:
                 other = [a for a in c.args[:2] if any(isinstance(y, ast.Call) and call_name(y) == "cross" for y in ast.walk(a))]
                 if len(other) != 1:
@@ -1545,6 +1549,25 @@ def _roll_sign(repo, clause):
                                                      "operands of the cross product are not recognisably derived from the two points")))),
                               slot="roll-branch-test", positive=swapped or (not unit and order_ok), undecided=not (swapped or (not unit and order_ok))))
     return obs
+
+
+def _inline_cross_temps(fn, t):
+    """Replace, in a copy of the test, every local that is bound exactly once to an expression containing a cross product by that expression (normal = np.cross(v1, v2))."""
+    import copy
+    defs = {}
+    for d in fn.own_nodes():
+        if isinstance(d, ast.Assign) and len(d.targets) == 1 and isinstance(d.targets[0], ast.Name):
+            defs.setdefault(d.targets[0].id, []).append(d.value)
+    sub = {k: v[0] for k, v in defs.items() if len(v) == 1 and any(isinstance(y, ast.Call) and call_name(y) == "cross" for y in ast.walk(v[0]))}
+    if not sub or not any(isinstance(y, ast.Name) and y.id in sub for y in ast.walk(t)):
+        return t
+
+    class _S(ast.NodeTransformer):
+        def visit_Name(self, node):
+            if isinstance(node.ctx, ast.Load) and node.id in sub:
+                return copy.deepcopy(sub[node.id])
+            return node
+    return ast.fix_missing_locations(_S().visit(copy.deepcopy(t)))
 
 
 def C_roll_gate(repo, clause):
